@@ -5,3 +5,4 @@ pub mod c03;
 pub mod c08;
 pub mod c02;
 pub mod c12;
+pub mod c15;
